@@ -107,7 +107,7 @@ def pipeline(ctx, cases_by=None):
 
     d = 7 if q else 12
     sim = ctx.tlc_gen("StyleInh_MC.tla", simcfg(ctx, "gen_sim.cfg", 3 if q else 4, d), "sim", mode="sim",
-                      num=8 if q else 60, depth=d + 1, limit=1200 if q else 12000)
+                      num=8 if q else 40, depth=d + 1, limit=1200 if q else 12000)
     bounds["sim"] = "%d random operation sequences of length %d over %d styles, all 9 operations" % (len(sim), d, 3 if q else 4)
     allobs.append(ctx.run_exec("styleinh", sim, "sim", shards=12))
     if allobs:
